@@ -246,6 +246,12 @@ pub fn cell_value(prover: &MockProver<F>, c: usize, r: usize) -> Option<F> {
 /// Overwrite one advice cell (H2), run `verify_at_rows` on the rows around it plus the full
 /// permutation check, restore the cell. Returns whether the tampered table was ACCEPTED.
 pub fn tamper_accepts(prover: &mut MockProver<F>, cells: &[(usize, usize, F)], radius: usize) -> bool {
+    tamper_accepts_at(prover, cells, radius, None)
+}
+
+/// Same, but when `only_rows` is given the gates and lookups are checked at exactly these rows
+/// (local acceptance of a forged row; the permutation argument is still checked globally).
+pub fn tamper_accepts_at(prover: &mut MockProver<F>, cells: &[(usize, usize, F)], radius: usize, only_rows: Option<Vec<usize>>) -> bool {
     let mut saved = vec![];
     for (c, r, v) in cells {
         saved.push((*c, *r, prover.advice()[*c][*r].clone()));
@@ -262,6 +268,7 @@ pub fn tamper_accepts(prover: &mut MockProver<F>, cells: &[(usize, usize, F)], r
             }
         }
     }
+    let rows = only_rows.unwrap_or(rows);
     let res = catch(|| prover.verify_at_rows(rows.clone().into_iter(), rows.clone().into_iter()));
     for (c, r, old) in saved {
         prover.verif_advice_mut()[c][r] = old;
